@@ -57,6 +57,7 @@ func cmdRun(args []string) {
 	cvc := fs.Bool("cvc5", false, "prefer one-shot portfolio")
 	prop := fs.String("prop", "", "property id for known findings")
 	concAlloc := fs.Bool("concalloc", false, "case-split allocation sizes")
+	opaque := fs.Bool("opaquefmt", false, "opaque Sprintf")
 	noReplay := fs.Bool("noreplay", false, "skip native replay")
 	if len(args) < 1 {
 		usage()
@@ -68,7 +69,7 @@ func cmdRun(args []string) {
 		fmt.Fprintln(os.Stderr, "load:", err)
 		os.Exit(3)
 	}
-	spec := HarnessSpec{Name: name, MaxPaths: *maxPaths, TimeoutSec: *timeout, Refine: *refine, PreferCVC5: *cvc, ConcAlloc: *concAlloc}
+	spec := HarnessSpec{Name: name, MaxPaths: *maxPaths, TimeoutSec: *timeout, Refine: *refine, PreferCVC5: *cvc, ConcAlloc: *concAlloc, OpaqueFmt: *opaque}
 	if s, id := findSpec(name); s != nil {
 		spec = *s
 		if *prop == "" {
@@ -224,6 +225,33 @@ func cmdCheck(id string, args []string) int {
 				fmt.Printf("VACUOUS property=%s harness=%s label=%s\n", id, spec.Name, l)
 			}
 		}
+		// translator validation: replay witnesses of completed paths natively; they must run clean
+		nw := len(hs.Witnesses)
+		if nw > 2 {
+			nw = 2
+		}
+		type wres struct {
+			i  int
+			rr *ReplayResult
+		}
+		wch := make(chan wres, nw)
+		for i := 0; i < nw; i++ {
+			go func(i int) {
+				w := hs.Witnesses[i]
+				f := &Finding{Harness: spec.Name, Site: "witness", Model: w.Witness}
+				dir := filepath.Join(ld.verif, "replays", id, fmt.Sprintf("%s-witness-%d", spec.Name, i+1))
+				wch <- wres{i, replayP(ld, hs.fn, f, dir, spec.Params)}
+			}(i)
+		}
+		for i := 0; i < nw; i++ {
+			r := <-wch
+			if r.rr.Outcome == "clean" {
+				hs.WitnessOK++
+			} else {
+				notes = append(notes, fmt.Sprintf("%s: witness %d of a completed path did not run clean natively (%s): ENCODING-MISMATCH, nothing claimed for this harness", spec.Name, r.i+1, r.rr.Outcome))
+				fmt.Printf("ENCODING-MISMATCH property=%s harness=%s witness %d native outcome %s\n", id, spec.Name, r.i+1, r.rr.Outcome)
+			}
+		}
 		// findings
 		nrep := 0
 		seenSite := map[string]int{}
@@ -302,6 +330,7 @@ func writeEvidence(ld *Loaded, id, tier string, seed int, runs []*HarnessRun, p 
 		q["oneshot_portfolio"] += hs.Solver.OneShot
 		solverS += hs.Solver.TimeIncr.Seconds() + hs.Solver.TimeOneShot.Seconds()
 		seenK := map[string]bool{}
+		replayed += hs.WitnessOK
 		for _, f := range hs.Findings {
 			if f.Replay != nil {
 				replayed++
